@@ -33,10 +33,10 @@ constructor and `k` completed iterations, for every `k`) and at the normal end o
   without popping and without moving the clock, and the state after it stalls again. Such
   states violate the invariant, i.e. they are unreachable from well-formed initial states.
 
-Not proved here (PARTIAL for C05): a bound on the number of events handled at one instant and
-termination of the loop for all fuel; `Props/C05_Causality.lean` gives the per-handler
-same-instant table where available. Runs aborted by an exception: the theorems hold at the
-last loop head before the aborting iteration (the exceptional post-condition is trivial).
+Not proved here (PARTIAL for C05): a bound on the number of events handled at one instant (a
+per-handler same-instant causality table) and termination of the loop for all fuel above an
+explicit bound. Runs aborted by an exception: the theorems hold at the last loop head before
+the aborting iteration (the exceptional post-condition of the triples is trivial).
 -/
 namespace ErdosVerif.C05
 open ErdosVerif.Model ErdosVerif.Model.Sim
